@@ -308,3 +308,70 @@ def frame_calls(ck):
     ck.extra["extension_frame_call_histories"] = n
     ck.extra["extension_frame_call_histories_with_mutation"] = mut
     ck.extra["extension_frame_call_histories_with_stale_answer"] = stale
+
+
+def _encode_one(ob):
+    """Encode.tla state -> real FloatTransformer, in three presentations of the values (floats, ints, strings)"""
+    import warnings
+    from fairlearn.adversarial._preprocessor import FloatTransformer
+    notes = []
+    allint = all(v % 2 == 0 for v in ob["fit"] + ob["q"])
+    pres = [("float", lambda v: v / 2.0)]
+    if allint:
+        pres += [("int", lambda v: v // 2), ("str", lambda v: "abc"[v // 2])]
+    for pname, f in pres:
+        tag = f"fit={[f(v) for v in ob['fit']]} query={[f(v) for v in ob['q']]}"
+        with warnings.catch_warnings():
+            warnings.simplefilter("ignore")
+            try:
+                ft = FloatTransformer().fit([f(v) for v in ob["fit"]])
+            except Exception as e:
+                notes.append(f"encode {tag}: fit raised {type(e).__name__}: {str(e)[:80]}")
+                continue
+            if ft.inferred_type_ != ob["type"]:
+                notes.append(f"encode {tag}: inferred type {ft.inferred_type_}, Encode.tla says {ob['type']}")
+                continue
+            try:
+                t = ft.transform([f(v) for v in ob["q"]])
+                got = "ok"
+            except ValueError as e:
+                got = "type_error" if "Unknown label type" in str(e) else "unknown_category" if "unknown categories" in str(e) else f"ValueError {str(e)[:60]}"
+            except Exception as e:
+                got = f"{type(e).__name__} {str(e)[:60]}"
+            if got != ob["outcome"]:
+                notes.append(f"encode {tag}: transform outcome '{got}', Encode.tla says '{ob['outcome']}'")
+                continue
+            # the training data itself: width, encoding, round trip
+            tf = ft.transform([f(v) for v in ob["fit"]])
+            if tf.shape != (len(ob["fit"]), ob["width"]) or tf.dtype != float:
+                notes.append(f"encode {tag}: transformed training data has shape {tf.shape} dtype {tf.dtype}, Encode.tla says width {ob['width']} floats")
+                continue
+            back = list(np.asarray(ft.inverse_transform(tf)).tolist())
+            if back != [f(v) for v in ob["fit"]]:
+                notes.append(f"encode {tag}: inverse_transform(transform(x)) = {back}")
+            if got == "ok":
+                exp = [[x / 2.0 for x in row] for row in ob["rows"]]
+                if t.tolist() != exp:
+                    notes.append(f"encode {tag}: rows {t.tolist()}, Encode.tla says {exp}")
+    return notes
+
+
+def encode(ck):
+    laws = "".join(f"INVARIANT {x}\n" for x in ("RoundTrip", "WidthLaw", "Injective", "TrainingDataAccepted", "OneHot", "KnownValuesAccepted", "DeviationIsRejection"))
+    L = 3 if ck.quick else 4
+    cfg = lambda k: f"CONSTANTS MaxLen = {L}\nEmit = TRUE\nNShards = {8 if ck.quick else 64}\nShard = {k}\nSPECIFICATION Spec\n{laws}INVARIANT EmitInv\nCHECK_DEADLOCK FALSE\n"
+    obs = ck.tlc_shards("Encode", cfg, 8, f"extension: FloatTransformer encoding rules, columns <= {L}", same_space=True)
+    if ck.quick:
+        ck.rng("encode").shuffle(obs)
+        obs = obs[:6000]
+    n = dev = 0
+    out = {}
+    for ob, notes in zip(obs, pmap(_encode_one, obs, chunksize=32)):
+        n += 1
+        dev += ob["subset_batch"]
+        out[ob["outcome"]] = out.get(ob["outcome"], 0) + 1
+        for t in notes:
+            ck.note_drift("[extension Encode.tla] " + t)
+    ck.extra["extension_encode_cases"] = n
+    ck.extra["extension_encode_outcomes"] = out
+    ck.extra["extension_encode_subset_batch_deviation_cases"] = dev
